@@ -682,6 +682,21 @@ def extra_tighten_intdata(ctx, rec):
             rec.session(steps, dict(CONCS[1], xc=["u16", "i32", "i64", "u16"][rep % 4]))
 
 
+def extra_box_edges(ctx, rec):
+    """C14: positions ONE representable step outside a box edge (strictly outside is FAIL, however little); the track of
+    each session is also run as generated"""
+    g = gen_qc.Gen(ctx.seed + 181, size=ctx.pick(6, 12))
+    for rep in range(ctx.pick(150, 1200)):
+        c = g.base("loc")
+        if len(c["p"]["bbox"]) not in (0, 4) or c["p"]["shapes"] != "same" or len(c["lon"]) != len(c["lat"]):
+            continue
+        c["p"]["rmax"] = []
+        steps = [({"kind": "base", "i": 0, "k": 0}, c),
+                 ({"kind": "recall", "i": 0, "k": 0}, json.loads(json.dumps(c)),
+                  {"conc": {"squeeze": True}, "variant_label": "squeeze"})]
+        rec.session(steps, CONCS[rep % 2])
+
+
 def long_call(g, fn, N):
     """a base call of the generator stretched to N points (its own pattern repeated, every other repetition bumped by
     one so that repetitions differ); None when the generator offers nothing suitable"""
@@ -872,6 +887,14 @@ def extra_shared_config(ctx, rec):
             c = g.clim()
             c["p"]["members"] = json.loads(json.dumps(members))
             rec.session([({"kind": "base", "i": 0, "k": 0}, c, {"history": True})], dict(CONCS[k % 2], climc="shared"))
+            t = c["t"]
+            if len(t) >= 3 and t == sorted(t) and t[-1] - t[0] > 10 * len(t):
+                # a second series of the same length between the same first and last stamp, other stamps in between
+                # (anything remembered per "kind of series" instead of per series shows here)
+                c2 = json.loads(json.dumps(c))
+                mid = sorted(g.r.sample(range(t[0] + 1, t[-1]), len(t) - 2))
+                c2["t"] = [t[0]] + mid + [t[-1]]
+                rec.session([({"kind": "base", "i": 0, "k": 0}, c2, {"history": True})], dict(CONCS[k % 2], climc="shared"))
             if j % 2:
                 other = g.base(g.r.choice(["spike", "gross", "flat"]))
                 rec.session([({"kind": "base", "i": 0, "k": 0}, other)], CONCS[0])
@@ -1048,7 +1071,7 @@ PLAN = {
     "C14": {"repo_fns": ["loc"], "mc": T([M("loc", ["loc"], ["perturb"], 2, budget=14000)],
                     [M("loc", ["loc"], ["perturb", "tighten"], 3, big=True, budget=150000)]),
             "random": {"fns": ["loc"], "count": (500, 8000), "kinds": ["recall"], "size": (10, 30)},
-            "extra": [extra_missing_markers, extra_long_series, extra_repo_tests]},
+            "extra": [extra_missing_markers, extra_long_series, extra_repo_tests, extra_box_edges]},
     "C15": {"mc": T([M("carrier_rules", ALL_FNS, ["recall"], 1, budget=0)],
                     [M("carrier_rules", ALL_FNS, ["recall"], 2, budget=0)]),
             "extra": [extra_carriers]},
